@@ -11,5 +11,6 @@ CONSTANTS NB = 3
  BugBatchAny = FALSE
  BugAddAfterInsert = FALSE
  BugStaleSubIndex = FALSE
-INVARIANTS TypeOK ChainLinear Converges TxReachesPool PoolClean PoolOnce PoolValid
+ BugBatchAbort = FALSE
+INVARIANTS TypeOK ChainLinear Converges TxReachesPool PeerKept PoolClean PoolOnce PoolValid
 CHECK_DEADLOCK FALSE
